@@ -6,10 +6,17 @@ import Clikit.Gen.C08
 `TokenParser` is a scanner with one character of look-ahead: its state is
 `(_string, _cursor, _current, _next_)` with the invariant `_current = _string[_cursor]`,
 `_next_ = _string[_cursor + 1]` (`None` past the end).  `Cursor` below is that state
-literally, with `_next()` as `Cursor.next`; the scanner itself is modelled on the
-*remaining text* `_string[_cursor:]` (head = `_current`, second element = `_next_`,
-`_next()` = drop one character, a no-op at the end) - `Cursor.rest_next` in
-`Lemmas/Tokenizer.lean` proves that this is what `_next()` does to the remaining text.
+literally, with `_next()` as `Cursor.next`.  The scanner is written twice:
+
+* `pqC` / `ptokC` / `toksC` / `tokenizeC` follow the methods `_parse_quoted_string`,
+  `_parse_token`, `_parse`, `parse` on the object state, statement by statement (this is
+  what the driver runs and the correspondence compares with the real class);
+* `pq` / `ptok` / `toks` / `tokenize` work on the *remaining text* `_string[_cursor:]`
+  (head = `_current`, second element = `_next_`, `_next()` = drop one character, a no-op at
+  the end) - the form the theorems are proved about.
+
+`tokenizeC_eq` (Lemmas, via `pqC_sim`, `ptokC_sim`, `toksC_sim`) proves that the two agree
+for every string and every fuel.
 
 The `while self._is_valid(): ...` loops are recursive functions that return the text
 produced by the rest of the loop, indexed by fuel (DESIGN 3.6): the functions are
@@ -69,6 +76,16 @@ def esc : Str → Str × Str
   | [] => (['\\'], [])                       -- `_next_ is None`: the backslash itself (repaired D8)
   | c :: r => if isQ c then ([c], r)          -- `\"`, `\'`: the quote
               else (['\\', c], r)             -- `\x`: backslash kept
+
+/-- `_parse_escape_sequence()` on the object state, with its use of the look-ahead `_next_`
+and the two `_next()` calls, literally.  `Cursor.escape_eq` (Lemmas) shows that on the
+remaining text it is `esc`. -/
+def Cursor.escape (c : Cursor) : Str × Cursor :=
+  let sequence :=
+    match c.next_ with
+    | none => ['\\']                                    -- `elif self._next_ is None`
+    | some d => if isQ d then [d] else ['\\', d]         -- `in ['"', "'"]` / `"\\" + self._next_`
+  (sequence, c.next.next)
 
 /-- `_parse_quoted_string()` after `delimiter = self._current; self._next()`: the loop.
 Returns the string and the remaining text. -/
@@ -139,6 +156,82 @@ def toks : Nat → Str → Except Err (List Str)
 /-- `TokenParser().parse(s)` -/
 def tokenize (s : Str) : Except Err (List Str) := toks (s.length + 1) s
 
+/-! ### the same scanner on the object state, method by method -/
+
+/-- `_parse_quoted_string()` on the object state (loop after the first delimiter was skipped) -/
+def pqC : Nat → Char → Cursor → Except Err (Str × Cursor)
+  | 0, _, _ => .error .outOfFuel
+  | n + 1, d, c =>
+    match c.current with
+    | none => .ok ([], c)
+    | some x =>
+      if x == d then .ok ([], c.next)
+      else if x == '\\' then
+        match pqC n d c.escape.2 with
+        | .error e => .error e
+        | .ok (str, c2) => .ok (c.escape.1 ++ str, c2)
+      else if x == '"' then
+        match pqC n '"' c.next with
+        | .error e => .error e
+        | .ok (inner, c1) =>
+          match pqC n d c1 with
+          | .error e => .error e
+          | .ok (str, c2) => .ok ('"' :: inner ++ '"' :: str, c2)
+      else if x == '\'' then
+        match pqC n '\'' c.next with
+        | .error e => .error e
+        | .ok (inner, c1) =>
+          match pqC n d c1 with
+          | .error e => .error e
+          | .ok (str, c2) => .ok ('\'' :: inner ++ '\'' :: str, c2)
+      else
+        match pqC n d c.next with
+        | .error e => .error e
+        | .ok (str, c2) => .ok (x :: str, c2)
+
+/-- `_parse_token()` on the object state -/
+def ptokC : Nat → Cursor → Except Err (Str × Cursor)
+  | 0, _ => .error .outOfFuel
+  | n + 1, c =>
+    match c.current with
+    | none => .ok ([], c)
+    | some x =>
+      if isSpace x then .ok ([], c.next)
+      else if x == '\\' then
+        match ptokC n c.escape.2 with
+        | .error e => .error e
+        | .ok (t, c2) => .ok (c.escape.1 ++ t, c2)
+      else if isQ x then
+        match pqC n x c.next with
+        | .error e => .error e
+        | .ok (q, c1) =>
+          match ptokC n c1 with
+          | .error e => .error e
+          | .ok (t, c2) => .ok (q ++ t, c2)
+      else
+        match ptokC n c.next with
+        | .error e => .error e
+        | .ok (t, c2) => .ok (x :: t, c2)
+
+/-- `_parse()` on the object state -/
+def toksC : Nat → Cursor → Except Err (List Str)
+  | 0, _ => .error .outOfFuel
+  | n + 1, c =>
+    match c.current with
+    | none => .ok []
+    | some x =>
+      if isSpace x then toksC n c.next
+      else
+        match ptokC (n + 1) c with
+        | .error e => .error e
+        | .ok (t, c1) =>
+          match toksC n c1 with
+          | .error e => .error e
+          | .ok ts => .ok (t :: ts)
+
+/-- `TokenParser().parse(s)` on the object state -/
+def tokenizeC (s : Str) : Except Err (List Str) := toksC (s.length + 1) (Cursor.init s)
+
 /-! ### raw args -/
 
 /-- `list(itertools.takewhile(lambda arg: arg != "--", tokens))` - the same expression in
@@ -154,7 +247,7 @@ structure Raw where
 
 /-- `StringArgs(s)` -/
 def stringArgs (s : Str) : Except Err Raw :=
-  match tokenize s with
+  match tokenizeC s with
   | .error e => .error e
   | .ok ts => .ok { scriptName := none, tokens := ts, optionTokens := optionTokens ts }
 
